@@ -54,6 +54,9 @@ CORPUS = [
 ]
 
 
+UNGUARDED = []      # (program, block) pairs without a loop-counter ranking: C08's concern, collected here
+
+
 def programs(ck):
     r = lib.rng(ck.seed)
     quick = ck.tier == "quick"
@@ -65,19 +68,16 @@ def programs(ck):
 
 def parse_answer(a):
     """-> (verdict, guarded, {pc: set(states)}, text)"""
+    import re
     t = a.split()
     verdict = t[0]
     guarded = "guarded=1" in t[1:2]
     ann = {}
-    toks = []
-    if verdict == "ok":
-        toks = t[3:]
-    elif verdict == "merge":
-        toks = a.split("|", 1)[1].split()
-    for x in toks:
-        pc, ar, en, bi = map(int, x.split(":"))
-        ann.setdefault(pc, set()).add((ar, en, bi))
-    return verdict, guarded, ann, a.split("|")[0][:300]
+    for x in t:
+        if re.fullmatch(r"\d+:\d+:\d+:\d+", x):
+            pc, ar, en, bi = map(int, x.split(":"))
+            ann.setdefault(pc, set()).add((ar, en, bi))
+    return verdict, guarded, ann, a.split("|")[0][:300] if verdict == "merge" else " ".join(x for x in t if ":" not in x or "=" in x)[:300]
 
 
 def assign_env_fp(blocks):
@@ -155,6 +155,9 @@ def verify(ck, bins, progs, tag, run=True):
             verdict, guarded, ann, text = parse_answer(a)
             b["verdict"], b["guarded"], b["ann"] = verdict, guarded, ann
             st["verdict:" + verdict] += 1
+            st["guarded:%d" % guarded] += 1
+            if not guarded:
+                UNGUARDED.append((p, b))
             # ---- correspondence of the model with the VM on the executed paths
             obs_bad = []
             ops = {pc: op for pc, op, _ in b["instrs"]}
